@@ -366,7 +366,12 @@ func (ex *Exec) execInstr(st *State, in ssa.Instruction) []*State {
 		case *types.Slice:
 			ex.oblige(st, in, "safe", "index", sx("bvult", i.T, slLen(a.T)), "index < len")
 			a.Ty = x.X.Type()
-			st.fr.vals[x] = Val{S: sortRef, Ty: x.Type(), P: st.sliceElemPtr(a, i.T)}
+			ep := st.sliceElemPtr(a, i.T)
+			if ep.Kind == pObj {
+				st.setVal(x, Val{T: ep.Base, S: sortRef, Ty: x.Type()})
+			} else {
+				st.fr.vals[x] = Val{S: sortRef, Ty: x.Type(), P: ep}
+			}
 		case *types.Pointer:
 			at := t.Elem().Underlying().(*types.Array)
 			ex.oblige(st, in, "safe", "index", sx("bvult", i.T, bv64(at.Len())), "index < array length")
